@@ -24,7 +24,7 @@ class P(Prop):
     thorough_n = 12000
     case_timeout = 20.0
     rule = ("a case = file content (alphabet incl. 2/3/4-byte UTF-8, carriage returns, empty lines, lines of 9000+ "
-            "chars, with/without final newline, CRLF files, the empty file for the buffered variants), one of the 8 "
+            "chars, with/without final newline, CRLF files, the empty file), one of the 8 "
             "readable classes (text / memory-mapped x plain / record x immutable / mutable-but-unmodified), an index "
             "source (built, list, index file, subset, permutation) and a script of accesses: f[i] for positive and "
             "negative i, index iterables, slices, len, list(f), several stepped iterators interleaved with random "
@@ -65,9 +65,6 @@ class P(Prop):
             content = fc.gen_content(rng)
             cls = rng.choice(fc.READ_CLASSES)
             b = content.encode("utf-8")
-            if not b and "MemoryMapped" in cls:
-                content = "x"
-                b = b"x"
             starts = line_starts(b)
             src = rng.choice(["built", "built", "list", "file", "subset", "perm"])
             index = None
@@ -88,8 +85,6 @@ class P(Prop):
             b = c.encode("utf-8")
             n = len(line_starts(b))
             for cls in fc.READ_CLASSES:
-                if not b and "MemoryMapped" in cls:
-                    continue
                 ops = [[5], [8]] + [[0, i] for i in range(-n - 1, n + 1)] + [[3], [3]]
                 for j in range(n + 1):
                     ops += [[4, 0], [0, (j * 7) % max(1, n)] if n else [5], [4, 1]]
